@@ -419,6 +419,10 @@ fn c16_ctor<A: Flavor>(case: &CaseC16) -> R<BTreeSet<&'static str>> {
     }
 }
 
+fn c_has_truncate(ops: &[Op]) -> bool {
+    ops.iter().any(|o| matches!(o, Op::Truncate { .. }))
+}
+
 fn c16_run_inner(case: &CaseC16) -> CaseReport {
         if let Some(k) = case.huge_reserved {
             let r = match case.cfg.flavor {
@@ -463,6 +467,22 @@ fn c16_run_inner(case: &CaseC16) -> CaseReport {
             viol = compare_runs("C16", &v, &a, "Vec", "anon-mmap", true, true).or_else(|| compare_runs("C16", &v, &f, "Vec", "file-mmap", true, true));
             if viol.is_none() && !v.trace.is_empty() {
                 classes.insert("three-backends-compared");
+            }
+            // with truncate in the history only the two in-memory backends are compared (a grown file keeps whatever
+            // bytes lay above the cursor, a new heap block or anonymous map starts zeroed - see section 9, entry 8); the
+            // two of them must still agree byte for byte, in particular on what lies above the cursor after growing
+            if viol.is_none() && c_has_truncate(&case.ops) && cfg.flavor == Fl::Unsync {
+                let t_ops: Vec<Op> = case.ops.iter().filter(|o| !matches!(o, Op::Reopen { .. })).cloned().collect();
+                let run2 = |b: Backend| {
+                    let mut c = cfg.clone();
+                    c.backend = b;
+                    run_history::<unsync::Arena>(&c, &t_ops, mode.clone())
+                };
+                let (v2, a2) = (run2(Backend::Vec), run2(Backend::Anon));
+                viol = compare_runs("C16", &v2, &a2, "Vec", "anon-mmap", true, true);
+                if viol.is_none() && !v2.trace.is_empty() {
+                    classes.insert("vec-and-anon-compared-with-truncate");
+                }
             }
             // the whole history (with truncate) on the case's own backend and layout: reserved prefix,
             // remaining law and accessors are checked after every step by the interpreter
